@@ -9,15 +9,19 @@ Model: `FileInfo.sourcePos` (ast/file_info.go SourcePos) on the line table built
 model `Lex.lexAll` (parser/lexer.go maybeNewLine / AddLine). Specification: `Spec.Lex.specLine`,
 `Spec.Lex.specCol` (characters = UTF-8 sequences).
 
-* `sourcePos_correct` (in Lemmas.Pos, re-exported here as `C13_position_formula`): on a line table
-  that is complete up to `p`, for every offset ≤ p the result is exactly (specLine, specCol).
-* `lex_lines_complete`: the table the lexer builds is complete for everything it has scanned,
-  provided no error was reported — for every byte string (invariant of the whole lexer).
-* `C13_full` (the statement for every file, with a reporter that lets lexing continue) is
-  REFUTED: `C13_full_refuted`, witness `"\n` — a newline consumed inside a string literal is never
-  passed to `AddLine`, so every later position is one line short.
-* `C13_partial`: the full formula for all files on which the lexer reported no error.
+* `C13_position_formula`: on a line table that is complete up to `p`, for every offset ≤ p the
+  result is exactly (specLine, specCol).
+* `lex_lines_complete`: for EVERY byte string and either reporter the table the lexer builds is
+  complete for everything it has scanned (invariant of the whole lexer, `Lemmas.LexInv`).
+* `C13_full`: hence for every file, every reporter and every scanned offset (all of them once the
+  EOF token exists, `lex_eof_scanned_all`) `SourcePos` is the specified line and column.
 * `span_start_le_end`, `item_span_start_le_end`: spans start no later than they end, on any table.
+
+History: on the tree before /repo commit bf5e1388 the full statement was refuted by this machinery
+(witness `"` + newline: `readStringLiteral` consumed a newline without `AddLine`, so with a reporter
+that lets lexing continue every later position was one line short; the model then had
+`sourcePos (lexAll true [0x22, 0x0A]).fi 2 = some (1, 3)`). The fix calls `maybeNewLine` for every
+rune consumed inside a string literal; the model mirrors it (`Lex.advNL`).
 -/
 import PCV.Model.Lex
 import PCV.Spec.Lex
@@ -41,59 +45,45 @@ theorem C13_line_formula (fi : FI) (p off : Nat) (hl : LinesUpTo fi p) (hop : of
     ∃ c, sourcePos fi (off : Int) = some (specLine fi.data off, c) :=
   ⟨_, sourcePos_fold fi p off hl hop hp⟩
 
-/-- **`lines_spec`.** Whatever the input and the reporter, as long as the lexer has reported no
-    error (and has not panicked) its line table is `0 :: [i+1 | data[i] = '\n', i < pos]`:
-    complete for everything scanned so far. -/
-theorem lex_lines_complete (lenient : Bool) (bs : List UInt8)
-    (hnp : (lexAll lenient bs).panicked = false) (herr : (lexAll lenient bs).errs = []) :
+/-- **`lines_spec`.** Whatever the input and the reporter, the lexer's line table is
+    `0 :: [i+1 | data[i] = '\n', i < pos]`: complete for everything scanned so far. -/
+theorem lex_lines_complete (lenient : Bool) (bs : List UInt8) :
     LinesUpTo (lexAll lenient bs).fi (lexAll lenient bs).pos ∧
     (lexAll lenient bs).pos ≤ (lexAll lenient bs).fi.data.length ∧
     (lexAll lenient bs).fi.data = stripBOM bs := by
-  rcases lexAll_final lenient bs with ⟨hp, _⟩ | ⟨⟨rs, hc⟩, _, _⟩
-  · rw [hp.1] at hnp; cases hnp
-  · refine ⟨?_, ?_, hc.hdata⟩
-    · have := hc.lines_clean herr trivial
-      rw [LinesUpTo, hc.hdata]; exact this
-    · rw [hc.hdata]; exact hc.pos_le
+  obtain ⟨⟨rs, hc⟩, _, _⟩ := lexAll_final lenient bs
+  refine ⟨?_, ?_, hc.hdata⟩
+  · rw [LinesUpTo, hc.hdata]; exact hc.lines_eq
+  · rw [hc.hdata]; exact hc.pos_le
 
-/-- the full statement: after lexing any file with a reporter that lets lexing continue, every
-    offset of the file has the specified line -/
-def C13_full : Prop :=
-  ∀ (bs : List UInt8) (off : Nat), off ≤ (stripBOM bs).length → (lexAll true bs).panicked = false →
-    ∃ c, sourcePos (lexAll true bs).fi (off : Int) = some (specLine (stripBOM bs) off, c)
-
-/-- REFUTED: `"` followed by a newline. The newline is consumed by `readStringLiteral` without
-    `AddLine`, so offset 2 (start of line 2) is reported as line 1, column 3. -/
-theorem C13_full_refuted : ¬ C13_full := by
-  intro h
-  obtain ⟨c, hc⟩ := h [0x22, 0x0A] 2 (by decide) (by decide)
-  have h1 : sourcePos (lexAll true [0x22, 0x0A]).fi ((2 : Nat) : Int) = some (1, 3) := by decide
-  have h2 : specLine (stripBOM [0x22, 0x0A]) 2 = 2 := by decide
-  rw [h1, h2] at hc
-  cases hc
-
-/-- **C13 (partial, strongest form that holds).** For every file on which the lexer reports no
-    error — in particular every accepted file — and every offset the lexer has scanned (all of
-    them once the EOF token exists), `SourcePos` is exactly the specified line and column. -/
-theorem C13_partial (lenient : Bool) (bs : List UInt8) (off c : Nat)
-    (hnp : (lexAll lenient bs).panicked = false) (herr : (lexAll lenient bs).errs = [])
+/-- **C13 (full statement).** For every file, either reporter, and every offset the lexer has
+    scanned, `SourcePos` is exactly the specified line and column. -/
+theorem C13_full (lenient : Bool) (bs : List UInt8) (off c : Nat)
     (hoff : off ≤ (lexAll lenient bs).pos)
     (hc : specCol (stripBOM bs) off = some c) :
     sourcePos (lexAll lenient bs).fi (off : Int) = some (specLine (stripBOM bs) off, c) := by
-  obtain ⟨hl, hp, hd⟩ := lex_lines_complete lenient bs hnp herr
+  obtain ⟨hl, hp, hd⟩ := lex_lines_complete lenient bs
   have := C13_position_formula (lexAll lenient bs).fi _ off c hl hoff hp (by rw [hd]; exact hc)
+  rw [hd] at this
+  exact this
+
+/-- the line clause without any assumption on the encoding of the text -/
+theorem C13_full_line (lenient : Bool) (bs : List UInt8) (off : Nat)
+    (hoff : off ≤ (lexAll lenient bs).pos) :
+    ∃ c, sourcePos (lexAll lenient bs).fi (off : Int) = some (specLine (stripBOM bs) off, c) := by
+  obtain ⟨hl, hp, hd⟩ := lex_lines_complete lenient bs
+  have := C13_line_formula (lexAll lenient bs).fi _ off hl hoff hp
   rw [hd] at this
   exact this
 
 /-- when the lexer produced the EOF token it has scanned the whole file -/
 theorem lex_eof_scanned_all (lenient : Bool) (bs : List UInt8) (k : Nat)
-    (hnp : (lexAll lenient bs).panicked = false) (heof : (lexAll lenient bs).eof = some k) :
+    (heof : (lexAll lenient bs).eof = some k) :
     (lexAll lenient bs).pos = (stripBOM bs).length := by
-  rcases lexAll_final lenient bs with ⟨hp, _⟩ | ⟨_, _, he⟩
-  · rw [hp.1] at hnp; cases hnp
-  · rcases he with he | he
-    · rw [he] at heof; cases heof
-    · exact he.1
+  obtain ⟨_, _, he⟩ := lexAll_final lenient bs
+  rcases he with he | he
+  · rw [he] at heof; cases heof
+  · exact he.1
 
 /-- **Spans.** `SourcePos` is monotone, so any span built from two offsets in order starts no later
     than it ends (lexicographically on line, column) — on any line table. -/
@@ -129,21 +119,22 @@ theorem item_span_start_le_end (fi : FI) (s e : Nat) (is ie : Item)
     have := sourcePos_mono fi is.off ie.off l1 c1 l2 c2 hord hp1 hp2
     exact ⟨hord, this⟩
 
--- non-vacuity: a clean file with a tab, a multi-byte character, CRLF and a block comment:
--- a<TAB>"é"<CR><LF>/* x<LF>*/ b
+-- non-vacuity: a<TAB>"é"<CR><LF>/* x<LF>*/ b  (tab, multi-byte character, CRLF, block comment)
 def sample : List UInt8 :=
   [0x61, 9, 0x22, 0xC3, 0xA9, 0x22, 13, 10, 0x2F, 0x2A, 0x20, 0x78, 10, 0x2A, 0x2F, 0x20, 0x62]
-example : (lexAll true sample).errs = [] ∧ (lexAll true sample).panicked = false := by decide
+example : (lexAll true sample).pos = 17 := by decide
 example : sourcePos (lexAll true sample).fi 17 = some (3, 5) := by decide
 example : specCol sample 6 = some 12 ∧ specLine sample 17 = 3 ∧ specCol sample 17 = some 5 := by decide
+-- the former counterexample: `"` newline `$` with a reporter that continues; `$` is at 2:1
+example : sourcePos (lexAll true [0x22, 0x0A, 0x24]).fi 2 = some (2, 1) := by decide
 
 end PCV.Props.C13
 
 #print axioms PCV.Props.C13.C13_position_formula
 #print axioms PCV.Props.C13.C13_line_formula
 #print axioms PCV.Props.C13.lex_lines_complete
-#print axioms PCV.Props.C13.C13_full_refuted
-#print axioms PCV.Props.C13.C13_partial
+#print axioms PCV.Props.C13.C13_full
+#print axioms PCV.Props.C13.C13_full_line
 #print axioms PCV.Props.C13.lex_eof_scanned_all
 #print axioms PCV.Props.C13.span_start_le_end
 #print axioms PCV.Props.C13.item_span_start_le_end
